@@ -296,10 +296,12 @@ func (f *dataFamily) Flush() error {
 		f.immutableSeq = immutableSeq
 		f.mutex.Unlock()
 		f.replicaLock.Unlock()
+		verifhook.Yield("tsdb.family.flush.afterSwap")
 
 		if err := f.flushMemoryDatabase(immutableSeq, waitingFlushMemDB); err != nil {
 			return err
 		}
+		verifhook.Yield("tsdb.family.flush.afterCommit")
 
 		// flush success, mark immutable memory database nil
 		f.mutex.Lock()
@@ -409,6 +411,7 @@ func (f *dataFamily) Filter(executeCtx *flow.ShardExecuteContext) (resultSet []f
 	if memErr != nil && !errors.Is(memErr, constants.ErrNotFound) {
 		return nil, memErr
 	}
+	verifhook.Yield("tsdb.family.filter.afterMemory")
 	fileRS, fileErr := f.fileFilter(executeCtx)
 	if fileErr != nil && !errors.Is(fileErr, constants.ErrNotFound) {
 		return nil, fileErr
